@@ -86,6 +86,8 @@ def run_case(case):
     """fills in the observations of one case; never raises"""
     out = copy.deepcopy(case)
     specs = {}
+    shared = {}      # caller-owned data objects that are passed to several calls / several objects (C11)
+    pristine = {}
     signal.signal(signal.SIGALRM, _alarm)
     for i, o in enumerate(out["objs"]):
         o.setdefault("implAst", {"op": "none"})
@@ -110,7 +112,14 @@ def run_case(case):
                     spec = specs[oi]
                     order = ev.get("order") or sorted(ev["s"].keys())
                     args = [[v, py_val(ev["s"][v], S, ev.get("flt", False))] for v in order]
-                    keep = copy.deepcopy(args)
+                    if ev.get("share"):
+                        if ev["share"] not in shared:
+                            shared[ev["share"]] = args
+                            pristine[ev["share"]] = copy.deepcopy(args)
+                        args = shared[ev["share"]]
+                        keep = pristine[ev["share"]]
+                    else:
+                        keep = copy.deepcopy(args)
                     ev["ret"] = BAD; ev["viol"] = -1; ev["same"] = True
                     r = spec.update(py_val(ev["t"], o.get("tS", 1), False), args)
                     ev["ret"] = enc(r, S)
@@ -131,12 +140,19 @@ def run_case(case):
                         data[v] = [py_val(x, S, ev.get("flt", False)) for x in ev["w"][v]]
                     for v in ev.get("extra", {}):
                         data[v] = list(ev["extra"][v])
-                    keep = copy.deepcopy(data)
+                    if ev.get("share"):
+                        if ev["share"] not in shared:
+                            shared[ev["share"]] = data
+                            pristine[ev["share"]] = copy.deepcopy(data)
+                        data = shared[ev["share"]]
+                        keep = pristine[ev["share"]]
+                    else:
+                        keep = copy.deepcopy(data)
                     ev["ret"] = []; ev["rett"] = []; ev["viol"] = -1; ev["same"] = True
                     r = spec.evaluate(data)
                     ev["ret"] = [enc(p[1], S) for p in r]
                     # time-stamps are echoed objects: encode each returned stamp by the input stamp it equals
-                    tin = keep["time"]
+                    tin = data["time"]
                     ev["rett"] = [ev["ts"][i] if i < len(tin) and p[0] == tin[i] else enc(p[0], tS) for i, p in enumerate(r)]
                     ev["same"] = (data == keep)
                     c = spec.sampling_violation_counter
@@ -174,3 +190,12 @@ def run_cases(cases, procs=None):
     ctx = mp.get_context("fork")
     with ctx.Pool(procs) as pool:
         return pool.map(run_case, cases, chunksize=max(1, len(cases) // (procs * 4)))
+
+
+if __name__ == "__main__":
+    # CLI used to run a batch under a given PYTHONHASHSEED: runner.py <cases.json> <traces.json>
+    import json
+    with open(sys.argv[1]) as f:
+        cs = json.load(f)
+    with open(sys.argv[2], "w") as f:
+        json.dump([run_case(c) for c in cs], f)
